@@ -35,7 +35,7 @@ def construct(ver, s, warm=False):
     except Exception:  # noqa
         pass
     try:
-        o = im.cls[ver](s)
+        o = core.build(ver, s)
     except Exception as e:  # noqa
         return None, core.err_name(ver, e)
     if warm:
